@@ -114,12 +114,38 @@ CHECKS = {
             "The property is an 'only if': NotSecure is never judged; a verdict served from the cache is attributed to the key "
             "of the call that established it; crypto trusted; validator clock = RuntimeProvider::Timer, cache clock via hook H2.",
             "DESIGN.md section 4 C06", "sigcheck"),
+    "C12": ("model_checking",
+            "TLA+ machine of RFC 2136 section 3 processing plus requirement invariants checked by TLC; TLC-generated histories replayed through the real Catalog + SqliteZoneHandler with TSIG-signed wire bytes; every run and seeded random histories judged message by message by a TLA+ monitor",
+            "Exhaustive model check of prerequisite / prescan / update steps (incl. serial wrap) and of histories over a small "
+            "name and rdata universe; TLC-enumerated and -simulated histories of UPDATE messages covering every class/type/rdata "
+            "form of RFC 2136 tables 3.2.4 and 3.4.2.6 are sent as TSIG-signed wire bytes through Catalog::handle_request into a "
+            "zone built by SqliteZoneHandler::try_from_config, the reply and the zone (records(), AXFR, serial) projected, and "
+            "each message judged by Trace_Update (rcode, contents, serial iff changed in RFC 1982 order, one SOA, apex NS, CNAME "
+            "alone, all-or-nothing, prerequisites on the current zone). Mismatches are attributed to a listed finding only if "
+            "its syntactic trigger is present and every broken requirement is one that defect can break.",
+            "Projection in drive_update.rs; TTLs, wildcard owners, DNSSEC-signed zones and concurrent updates not modelled; the "
+            "value-dependent prerequisite subset-vs-equality reading is accepted both ways.",
+            "DESIGN.md section 4 C12", "update"),
+    "C14": ("model_checking",
+            "TLA+ write-ahead-journal machine (one action per journal row, Crash, Recover) model-checked by TLC with AsIs "
+            "counterexample configurations; real journals cut after every row and recovered by an unmodified try_from_config; "
+            "every recovery judged by a TLA+ monitor",
+            "Exhaustive model check of histories x crash after every row x second crash; the driver runs update histories "
+            "against a real on-disk journal, copies it, cuts it after every possible stop row (detected through SQLite's file "
+            "change counter, so a transactional implementation raises no alarm), recovers with try_from_config and continues the "
+            "history; Trace_Journal judges each recovery (boundary between whole messages, acknowledged updates present, serial "
+            "not behind, recovery total, transparent continuation).",
+            "SQLite durability of committed transactions trusted; PRAGMA synchronous=OFF on driver-built connections; crash "
+            "points are the commit boundaries.",
+            "DESIGN.md section 4 C14", "update"),
 }
 
 NOT_YET = {
 }
 
 ENGINES = [
+    {"name": "update", "path": "spec/Update.tla", "serves_properties": ["C12", "C14"],
+     "kind_free_text": "TLA+ spec (Serial, UpdateOps, Update, JournalOps, Journal, MC_/Gen_/Trace_Update, MC_/Gen_/Trace_Journal) + harness/src/bin/drive_update.rs"},
     {"name": "canonical", "path": "spec/Canonical.tla", "serves_properties": ["C05"],
      "kind_free_text": "TLA+ spec (CanonicalForm, Canonical, MC_/Gen_/Trace_Canonical) + harness/src/bin/drive_canonical.rs"},
     {"name": "sigcheck", "path": "spec/SigCheck.tla", "serves_properties": ["C06"],
